@@ -156,9 +156,9 @@ class JSONPointer:
                     # with JSON Patch, but not when resolving a JSON Pointer.
                     raise JSONPointerIndexError("index out of range") from None
                 # Handle non-standard index pointer.
-                if isinstance(key, str) and key.startswith("#") and key[1:].isdigit():
+                if isinstance(key, str) and key.startswith("#") and RE_CANONICAL_INT.fullmatch(key[1:]):
                     _index = int(key[1:])
-                    if _index >= len(obj):
+                    if _index >= len(obj) or _index < 0:
                         raise JSONPointerIndexError(
                             f"index out of range: {_index}"
                         ) from err
